@@ -138,9 +138,14 @@ RdHandle ==
 RdBuffer == /\ rd.pc = "evSend" /\ Len(evq) < Cap
             /\ evq' = Append(evq, rd.out) /\ rd' = [rd EXCEPT !.pc = "decode", !.out = "none"]
             /\ UNCHANGED <<kq, kmark, nfs, ovfd, fdOpen, mu, done, doneResp, evClosed, errClosed, tab, th, errs, closeRet>>
-RdExit == /\ rd.pc = "exit"
-          /\ doneResp' = TRUE /\ errClosed' = TRUE /\ evClosed' = TRUE /\ rd' = [rd EXCEPT !.pc = "gone"]
+\* the deferred function of readEvents: close(doneResp); close(Errors); close(Events) - three steps: a Close that was waiting
+\* for doneResp may return before the two channels are closed ("closed promptly", C06 - not "closed when Close returns")
+RdExit == /\ rd.pc \in {"exit", "exit2", "exit3"}
+          /\ CASE rd.pc = "exit"  -> doneResp' = TRUE /\ rd' = [rd EXCEPT !.pc = "exit2"] /\ UNCHANGED <<errClosed, evClosed>>
+               [] rd.pc = "exit2" -> errClosed' = TRUE /\ rd' = [rd EXCEPT !.pc = "exit3"] /\ UNCHANGED <<doneResp, evClosed>>
+               [] rd.pc = "exit3" -> evClosed' = TRUE /\ rd' = [rd EXCEPT !.pc = "gone"] /\ UNCHANGED <<doneResp, errClosed>>
           /\ UNCHANGED <<kq, kmark, nfs, ovfd, fdOpen, mu, done, evq, tab, th, errs, closeRet>>
+Exiting == rd.pc \in {"exit2", "exit3", "gone"}       \* the reader has left its loop for good: it sends nothing any more
 Reader == (RdTop \/ RdRead \/ RdDecode \/ RdSendAbort \/ RdLock \/ RdHandle \/ RdBuffer \/ RdExit) /\ UNCHANGED <<fsx, gen>>
 
 ---------------------------------------------------------------------------
@@ -220,15 +225,18 @@ NoWaitOnConsumer == \A t \in Threads : Waiting(t) => ENABLED Internal
 \* C05 (liveness): every call that was started returns
 Returns == \A t \in Threads : (th[t].pc # "idle") ~> (th[t].pc = "ret")
 \* C06: once a Close has returned both channels are closed and the reader is gone; nothing is sent on a closed channel
-CloseProtocol == /\ closeRet => (evClosed /\ errClosed /\ rd.pc = "gone")
-                 /\ evClosed => rd.pc = "gone"
+CloseProtocol == /\ closeRet => Exiting
+                 /\ (evClosed \/ errClosed) => Exiting
+\* ... and both channels do get closed (liveness, needs progress of the reader only)
+ClosedPromptly == closeRet ~> (evClosed /\ errClosed)
 \* C06/C07: results of calls are those of some sequential order - no result of a syscall on the closed descriptor
 ResultsOK == \A t \in Threads : th[t].res \notin {"EBADF"}
 \* C10: Errors carries only genuine failures - in particular not the EBADF of a syscall the reader made on the descriptor
 \* that Close had closed meanwhile (D15; when select{} picks the Errors case although done is closed, somebody receives it)
 ErrsGenuine == \A i \in 1..Len(errs) : errs[i] \in {"overflow"}
 \* C13: Close releases the descriptor, the kernel watches and the goroutine
-Released == closeRet => (~fdOpen /\ kmark = 0 /\ rd.pc = "gone")
+Released == /\ closeRet => (~fdOpen /\ kmark = 0 /\ Exiting)
+            /\ (evClosed /\ errClosed) => rd.pc = "gone"
 \* the mutex is never left locked by someone who is gone
 LockSane == mu \in {"free", "rd"} \cup Threads /\ (rd.pc = "gone" => mu # "rd")
 =============================================================================
